@@ -98,6 +98,26 @@ type chain struct {
 	opIdx     int
 	dead      bool
 	known     map[transaction.MethodName]bool
+	// rec: one entry per `tx` op of the history (what was delivered and how it ended), for the
+	// neutral twin; light: no snapshots, no judging (the twin itself)
+	rec   []txRec
+	light bool
+}
+
+// txRec records one delivered transaction for the neutral twin run: a transaction that failed AFTER
+// authentication is replaced there by a transaction of the same signer, nonce, fee and gas limit whose
+// handler cannot write (a staking transfer to the signer's own address), a transaction rejected
+// before/at authentication is left out, a successful one is delivered unchanged. If failed
+// transactions change nothing but fee and nonce — also not through the block context consulted by
+// EndBlock — both runs commit the same AppHash at every height.
+type txRec struct {
+	class  string // ok | rejected | failed | skipped
+	raw    []byte
+	signer int
+	nonce  uint64
+	fee    uint64
+	gas    transaction.Gas
+	noFee  bool // the transaction carried no fee structure at all
 }
 
 func (c *chain) count(k string) {
@@ -245,6 +265,9 @@ func (c *chain) begin() {
 		return
 	}
 	c.inBlock = true
+	if c.light {
+		return
+	}
 	c.snap = c.snapshot()
 	c.feeAcc = c.feeAccumulator()
 	c.count("blocks")
@@ -565,6 +588,37 @@ func (c *chain) deliver(raw []byte, label string) *types.ResponseDeliverTx {
 	return &resp
 }
 
+// deliverPlain delivers raw bytes without judging (the neutral twin).
+func (c *chain) deliverPlain(raw []byte) *types.ResponseDeliverTx {
+	c.begin()
+	if c.dead {
+		return nil
+	}
+	var resp types.ResponseDeliverTx
+	if p := guard(func() { resp = c.r.mux.DeliverTx(types.RequestDeliverTx{Tx: raw}) }); p != "" {
+		c.dead = true
+		c.fail("panic", "c08-delivertx-panic:neutral-twin", "DeliverTx panicked in the neutral twin: "+p)
+		return nil
+	}
+	return &resp
+}
+
+// neutralTx: a staking transfer of the minimum transfer amount from the signer to itself (the
+// handler only compares the balance, go/consensus/cometbft/apps/staking/transactions.go transferImpl).
+func (c *chain) neutralTx(rc txRec) []byte {
+	self := c.w.addrOf(rc.signer)
+	fee := &transaction.Fee{Amount: q(rc.fee), Gas: rc.gas}
+	if rc.noFee {
+		fee = nil
+	}
+	tx := transaction.NewTransaction(rc.nonce, fee, staking.MethodTransfer, &staking.Transfer{To: self, Amount: q(10)})
+	sig, err := transaction.Sign(c.w.signers[rc.signer], tx)
+	if err != nil {
+		return nil
+	}
+	return cbor.Marshal(sig)
+}
+
 // ---- CheckTx / EstimateGas bursts ------------------------------------------------------------
 
 func dumpDigest(t mkvs.Tree) string {
@@ -744,6 +798,7 @@ type runOut struct {
 	appHashes  []string
 	digests    []string
 	harnessErr string
+	rec        []txRec
 }
 
 // worldOf parses the first line `world variant=<v> backend=<b>`.
@@ -799,6 +854,11 @@ var (
 
 // run executes the ops (without the world line) on a fresh node.
 func run(w *world, base string, ops []string, res *hlib.Result, withBursts, withModel bool) *runOut {
+	return runTwin(w, base, ops, res, withBursts, withModel, nil)
+}
+
+// runTwin: with twinOf != nil the history is executed as the neutral twin of that recorded run.
+func runTwin(w *world, base string, ops []string, res *hlib.Result, withBursts, withModel bool, twinOf []txRec) *runOut {
 	out := &runOut{}
 	runCounter++
 	dir := subdir(base, fmt.Sprintf("run%d", runCounter))
@@ -809,6 +869,8 @@ func run(w *world, base string, ops []string, res *hlib.Result, withBursts, with
 		return out
 	}
 	defer c.close()
+	c.light = twinOf != nil
+	nrec := 0
 	g := &builder{c: c}
 	for i, l := range ops {
 		if c.dead {
@@ -841,9 +903,29 @@ func run(w *world, base string, ops []string, res *hlib.Result, withBursts, with
 			if c.dead {
 				break
 			}
+			if twinOf != nil {
+				if nrec >= len(twinOf) {
+					c.dead = true
+					break
+				}
+				rc := twinOf[nrec]
+				nrec++
+				switch rc.class {
+				case "ok":
+					if resp := c.deliverPlain(rc.raw); resp != nil && resp.Code != 0 {
+						c.fail("twin", "twin-ok-tx-failed", fmt.Sprintf("%s succeeded in the run and failed in its neutral twin: %s", op.method, resp.Log))
+					}
+				case "failed":
+					if raw := c.neutralTx(rc); raw != nil {
+						c.deliverPlain(raw)
+					}
+				}
+				continue
+			}
 			built := g.build(op)
 			if built == nil {
 				c.count("tx-skipped:" + op.method + ":" + op.variant)
+				c.rec = append(c.rec, txRec{class: "skipped"})
 				continue
 			}
 			if res != nil {
@@ -857,9 +939,34 @@ func run(w *world, base string, ops []string, res *hlib.Result, withBursts, with
 			if verbose {
 				fmt.Fprintf(os.Stderr, "%s\n", op.String())
 			}
+			rc := txRec{class: "rejected", raw: built.raw, signer: built.signer}
+			preNonce, hadAcct := uint64(0), false
+			nonceOf := func() (uint64, bool) {
+				a, err := stakingState.NewImmutableState(c.r.srv.VerifWorkingTree()).Account(context.Background(), w.addrOf(built.signer))
+				if err != nil {
+					return 0, false
+				}
+				return a.General.Nonce, true
+			}
+			preNonce, hadAcct = nonceOf()
 			if resp := c.deliver(built.raw, op.method); resp != nil {
 				c.count(fmt.Sprintf("tuple:%s|%s|%s|%s|%s|%s|%s", op.method, op.variant, op.gas, op.fee, op.nonce, op.env, errClass(resp)))
+				switch {
+				case resp.Code == 0:
+					rc.class = "ok"
+				case built.tx != nil && hadAcct:
+					// failed: after authentication iff the signer's nonce moved
+					if n, ok := nonceOf(); ok && n == preNonce+1 && built.tx.Nonce == preNonce {
+						rc.class, rc.nonce, rc.noFee = "failed", preNonce, built.tx.Fee == nil
+						if built.tx.Fee != nil {
+							rc.fee, rc.gas = qU64(&built.tx.Fee.Amount), built.tx.Fee.Gas
+						}
+					}
+				}
+			} else {
+				rc.class = "skipped"
 			}
+			c.rec = append(c.rec, rc)
 		}
 	}
 	c.opIdx = len(ops)
@@ -884,7 +991,7 @@ func run(w *world, base string, ops []string, res *hlib.Result, withBursts, with
 			}
 		}
 	}
-	out.failures, out.appHashes, out.digests = c.failures, c.appHashes, c.digests
+	out.failures, out.appHashes, out.digests, out.rec = c.failures, c.appHashes, c.digests, c.rec
 	return out
 }
 
@@ -913,6 +1020,36 @@ func check(lines []string, base string, res *hlib.Result) []failure {
 		return []failure{{"harness", "harness-open", a.harnessErr, 0}}
 	}
 	fs := a.failures
+	nfailed := 0
+	for _, rc := range a.rec {
+		if rc.class == "failed" {
+			nfailed++
+		}
+	}
+	if len(fs) == 0 && nfailed > 0 && variant != "blockgas" {
+		// neutral twin: every transaction that failed after authentication replaced by a self-transfer
+		// of the same signer/nonce/fee/gas limit, rejected ones left out (see txRec)
+		t := runTwin(w, base, ops, nil, false, false, a.rec)
+		switch {
+		case t.harnessErr != "":
+			return []failure{{"harness", "harness-open", t.harnessErr, 0}}
+		case len(t.failures) > 0 && t.failures[0].sig == "twin-ok-tx-failed":
+			// the two runs diverged: a failed transaction influenced what a later transaction does
+			fs = append(fs, failure{"spec", "c08-failed-tx-changed-block-outcome",
+				"the history and its neutral twin diverge (a transaction that failed after authentication replaced by a self-transfer of the same signer, nonce, fee and gas limit): " + t.failures[0].detail, len(ops)})
+		case len(t.failures) > 0:
+			fs = append(fs, failure{"harness", "harness-neutral-twin:" + t.failures[0].sig, t.failures[0].detail, len(ops)})
+		case !equalStrs(a.appHashes, t.appHashes):
+			i := firstDiff(a.appHashes, t.appHashes)
+			fs = append(fs, failure{"spec", "c08-failed-tx-changed-block-outcome",
+				fmt.Sprintf("the history and its neutral twin (each of the %d transactions that failed after authentication replaced by a self-transfer of the same signer, nonce, fee and gas limit; rejected ones left out) commit different AppHashes at block %d (%s vs %s): a failed transaction had an effect beyond fee and nonce by the end of its block", nfailed, i+1, at(a.appHashes, i), at(t.appHashes, i)), len(ops)})
+		default:
+			if res != nil {
+				res.Count("c08:neutral-twin-identical")
+				res.CountN("c08:neutral-twin-failed-txs-replaced", nfailed)
+			}
+		}
+	}
 	if len(fs) == 0 && hasBurst(ops) {
 		b := run(w, base, ops, nil, false, false)
 		if b.harnessErr != "" {
